@@ -572,10 +572,8 @@ func (c *fctx) call(x *ast.CallExpr) []S {
 					out := c.expr(inner.X, "R")
 					m := si.name + "." + fi.name
 					switch f.Sel.Name {
-					case "Lock", "RLock":
-						return append(out, S{kind: "Lock", a: m})
-					case "Unlock", "RUnlock":
-						return append(out, S{kind: "Unlock", a: m})
+					case "Lock", "Unlock", "RLock", "RUnlock":
+						return append(out, S{kind: f.Sel.Name, a: m})
 					}
 					return append(out, c.unknown(x.Pos(), "mutex method %s.%s", m, f.Sel.Name))
 				}
@@ -615,7 +613,7 @@ func foreignRefs(file, fn string, body []S) []string {
 			switch s.kind {
 			case "Use":
 				out = append(out, fmt.Sprintf("%s %s: Use %s %s", file, fn, s.a, s.b))
-			case "Lock", "Unlock", "DeferUnlock":
+			case "Lock", "Unlock", "DeferUnlock", "RLock", "RUnlock", "DeferRUnlock":
 				out = append(out, fmt.Sprintf("%s %s: %s %s", file, fn, s.kind, s.a))
 			case "Call":
 				name := s.a
